@@ -1,6 +1,6 @@
 #!/usr/bin/env python3
-"""Maintainer tool: run all 20 checks against each behaviour-preserving refactoring diff in a directory; any non-zero exit is a
-false alarm (or an analysis error) to look at.  usage: tools/try_refactors.py <dir with r*.diff>"""
+"""Maintainer tool: run all 20 checks against behaviour-preserving refactoring diffs; any non-zero exit is a false alarm (or an
+analysis error) to look at.  usage: tools/try_refactors.py <dir-or-glob of *.diff> [...]"""
 import glob, os, shutil, subprocess, sys, tempfile, concurrent.futures
 VERIF = os.path.dirname(os.path.dirname(os.path.abspath(__file__)))
 PY = '/venv/bin/python'
@@ -22,9 +22,16 @@ def one(diff):
     finally:
         shutil.rmtree(tmp, ignore_errors=True)
     return diff, out
-diffs = sorted(glob.glob(os.path.join(os.path.abspath(sys.argv[1]), '*.diff')))
+diffs = []
+for a in sys.argv[1:]:
+    a = os.path.abspath(a)
+    diffs += sorted(glob.glob(os.path.join(a, '*.diff'))) if os.path.isdir(a) else sorted(glob.glob(a))
+n_alarm = 0
 with concurrent.futures.ThreadPoolExecutor(max_workers=8) as ex:
     for diff, out in ex.map(one, diffs):
-        print('==', os.path.basename(diff), 'SILENT' if not out else 'ALARM')
+        tag = '/'.join(diff.split('/')[-2:])
+        print('==', tag, 'SILENT' if not out else 'ALARM')
+        n_alarm += bool(out)
         for o in out:
             print('    ', o)
+print('total %d, alarms %d' % (len(diffs), n_alarm))
